@@ -35,7 +35,7 @@ comes from `C01.bsearch_least`; then `extractRows_bn_accepted` / `extractRows_ws
 soundness theorems apply.  Helper lemmas: `Lemmas/RowsBridge.lean`.
 
 Exact arithmetic over any linear ordered field (bottleneck) / any ordered field with a square root
-and `cos(π/4)` (`SqrtSpec`, `CosSpec`), then instantiated at `ℝ`.  Nothing here is about floats.
+(`SqrtSpec`), then instantiated at `ℝ`.  Nothing here is about floats.
 -/
 set_option linter.unusedSectionVars false
 
@@ -275,35 +275,35 @@ structure WsCertified (sqrt : K → K) (S T : List (K × K)) (w : K) (rows : Lis
           ≤ q.sumCost (cP (euclidM sqrt) S T) (uP (diagL2M sqrt) S) (uP (diagL2M sqrt) T)
 
 /-- **(b) `model_ws_rows_certify`** — property C06 for the model of `persim.wasserstein`.
-    For every square-root function, `c = cos(π/4)`, EVERY assignment solver honouring `LsaContract`
+    For every square-root function, EVERY assignment solver honouring `LsaContract`
     and all diagrams of every size (no ordering of the coordinates is needed): the model returns
     `.ok` with a finite value `w`; its `rows` component is `rows.map rowOpt` (every third entry
     finite) where `rows` are exactly the rows of C06's extraction model `extractRowsWs` on the
     solver's permutation `σ`; `checkRows` accepts them with the Euclidean rule on the finite parts
     (placeholder-adjusted), every index appears exactly once, `rowsSum rows = w`; hence they are a
     partial matching of total cost exactly `w`, an optimal one, and `w` is the specification value. -/
-theorem model_ws_rows_certify (sqrt : K → K) (c : K) (hs : SqrtSpec sqrt) (hc : CosSpec c)
+theorem model_ws_rows_certify (sqrt : K → K) (hs : SqrtSpec sqrt)
     (lsa : Mat K → List (Nat × Nat)) (hl : LsaContract lsa) (d1 d2 : Dgm K) :
     ∃ (w : K) (rows : List (Row K)),
-      wasserstein sqrt c c lsa d1 d2 = .ok ⟨some w, warned d1, warned d2, rows.map rowOpt⟩
+      wasserstein sqrt lsa d1 d2 = .ok ⟨some w, warned d1, warned d2, rows.map rowOpt⟩
       ∧ (∃ σ : Equiv.Perm (Fin ((placeholder (finitePart d1)).length + (placeholder (finitePart d2)).length)),
-          lsa (matrixOf sqrt c c d1 d2) = List.ofFn (fun i => (i.val, (σ i).val))
+          lsa (matrixOf sqrt d1 d2) = List.ofFn (fun i => (i.val, (σ i).val))
           ∧ extractRowsWs (placeholder (finitePart d1)).length (placeholder (finitePart d2)).length
-              (augEntry sqrt c c (placeholder (finitePart d1)) (placeholder (finitePart d2))) (permList σ)
+              (augEntry sqrt (placeholder (finitePart d1)) (placeholder (finitePart d2))) (permList σ)
             = some rows)
       ∧ checkRows (euclidM sqrt) (diagL2M sqrt) (finitePart d1) (finitePart d2) rows = true
       ∧ rowsSum rows = w
       ∧ WsCertified sqrt (finitePart d1) (finitePart d2) w rows := by
   -- C02: the value
-  obtain ⟨w, rowsE, hrun, hspec⟩ := C02.wasserstein_eq_spec_dgm sqrt c hs hc lsa hl d1 d2
+  obtain ⟨w, rowsE, hrun, hspec⟩ := C02.wasserstein_eq_spec_dgm sqrt hs lsa hl d1 d2
   -- what the solver returned on the model's matrix
-  obtain ⟨σ, hσ, hfin, hsel⟩ := lsa_selects hs hc lsa hl (placeholder (finitePart d1)) (placeholder (finitePart d2))
-  have hD := wsAug_isAug hs hc (placeholder (finitePart d1)) (placeholder (finitePart d2))
+  obtain ⟨σ, hσ, hfin, hsel⟩ := lsa_selects hs lsa hl (placeholder (finitePart d1)) (placeholder (finitePart d2))
+  have hD := wsAug_isAug (sqrt := sqrt) (placeholder (finitePart d1)) (placeholder (finitePart d2))
   have hperm : (colsOf σ).Perm
       (List.range ((placeholder (finitePart d1)).length + (placeholder (finitePart d2)).length)) :=
     permList_perm σ
   have hAll : AllFinite (placeholder (finitePart d1)).length (placeholder (finitePart d2)).length
-      (augEntry sqrt c c (placeholder (finitePart d1)) (placeholder (finitePart d2))) (colsOf σ) := by
+      (augEntry sqrt (placeholder (finitePart d1)) (placeholder (finitePart d2))) (colsOf σ) := by
     intro i hi
     obtain ⟨e, he⟩ := Option.ne_none_iff_exists'.mp (hfin ⟨i, hi⟩)
     have := colsOf_get σ ⟨i, hi⟩
@@ -313,25 +313,25 @@ theorem model_ws_rows_certify (sqrt : K → K) (c : K) (hs : SqrtSpec sqrt) (hc 
   obtain ⟨rows, he, hcheck, hsum⟩ := extractRows_ws_accepted hD hperm hAll
   -- the model's own `rowsOf` / `optSum` on the solver's answer
   have hrowsOf := rowsOf_refines (placeholder (finitePart d1)).length (placeholder (finitePart d2)).length
-    (augEntry sqrt c c (placeholder (finitePart d1)) (placeholder (finitePart d2))) σ hfin
+    (augEntry sqrt (placeholder (finitePart d1)) (placeholder (finitePart d2))) σ hfin
   have hraw := wsRaw_eq hAll
   have he' : extractRowsWs (placeholder (finitePart d1)).length (placeholder (finitePart d2)).length
-      (augEntry sqrt c c (placeholder (finitePart d1)) (placeholder (finitePart d2))) (colsOf σ)
+      (augEntry sqrt (placeholder (finitePart d1)) (placeholder (finitePart d2))) (colsOf σ)
       = some ((((List.range ((placeholder (finitePart d1)).length + (placeholder (finitePart d2)).length)).map
-          (wsR (augEntry sqrt c c (placeholder (finitePart d1)) (placeholder (finitePart d2))) (colsOf σ))).map
+          (wsR (augEntry sqrt (placeholder (finitePart d1)) (placeholder (finitePart d2))) (colsOf σ))).map
           (wsRewrite (placeholder (finitePart d1)).length (placeholder (finitePart d2)).length)).filter
             fun r => r.i + r.j != -2) := by
     unfold extractRowsWs; rw [hraw]; rfl
   rw [he] at he'
   rw [← Option.some.inj he'] at hrowsOf
-  have hval := optSum_selected (augEntry sqrt c c (placeholder (finitePart d1)) (placeholder (finitePart d2))) σ hfin
+  have hval := optSum_selected (augEntry sqrt (placeholder (finitePart d1)) (placeholder (finitePart d2))) σ hfin
   have hsum' : some (rowsSum ((List.range ((placeholder (finitePart d1)).length + (placeholder (finitePart d2)).length)).map
-      (wsR (augEntry sqrt c c (placeholder (finitePart d1)) (placeholder (finitePart d2))) (colsOf σ))))
+      (wsR (augEntry sqrt (placeholder (finitePart d1)) (placeholder (finitePart d2))) (colsOf σ))))
       = some (rowsSum rows) := by
     rw [← hsum]; unfold selectedSum; rw [hraw]; rfl
   rw [hsum'] at hval
   -- the run of the model, computed
-  have hrun' : wasserstein sqrt c c lsa d1 d2
+  have hrun' : wasserstein sqrt lsa d1 d2
       = .ok ⟨some (rowsSum rows), warned d1, warned d2, rows.map rowOpt⟩ := by
     simp only [wasserstein, prepared, orPlaceholder_eq, hsel, hval]
     rw [hσ, hrowsOf]
@@ -358,14 +358,14 @@ theorem model_ws_rows_certify (sqrt : K → K) (c : K) (hs : SqrtSpec sqrt) (hc 
 
 /-- the solver-independent part of the conclusion: whenever the model returned `.ok out`, its value is
     finite and its rows certify it (the "if it returned … then" form, as for the bottleneck) -/
-theorem model_ws_rows_certify_of_ok (sqrt : K → K) (c : K) (hs : SqrtSpec sqrt) (hc : CosSpec c)
+theorem model_ws_rows_certify_of_ok (sqrt : K → K) (hs : SqrtSpec sqrt)
     (lsa : Mat K → List (Nat × Nat)) (hl : LsaContract lsa) (d1 d2 : Dgm K) (out : Out K)
-    (h : wasserstein sqrt c c lsa d1 d2 = .ok out) :
+    (h : wasserstein sqrt lsa d1 d2 = .ok out) :
     ∃ (w : K) (rows : List (Row K)), out.value = some w ∧ out.rows = rows.map rowOpt
       ∧ checkRows (euclidM sqrt) (diagL2M sqrt) (finitePart d1) (finitePart d2) rows = true
       ∧ rowsSum rows = w
       ∧ WsCertified sqrt (finitePart d1) (finitePart d2) w rows := by
-  obtain ⟨w, rows, hrun, -, hc1, hc2, hc3⟩ := model_ws_rows_certify sqrt c hs hc lsa hl d1 d2
+  obtain ⟨w, rows, hrun, -, hc1, hc2, hc3⟩ := model_ws_rows_certify sqrt hs lsa hl d1 d2
   rw [hrun] at h
   injection h with h
   subst h
@@ -374,15 +374,15 @@ theorem model_ws_rows_certify_of_ok (sqrt : K → K) (c : K) (hs : SqrtSpec sqrt
 /-- **(c) `model_rows_independent_of_solver_value`** (Wasserstein): two solvers honouring the contract
     may return different optimal assignments, hence different rows, but both sets of rows are accepted
     by the checker and certify the SAME value. -/
-theorem model_rows_independent_of_solver_value (sqrt : K → K) (c : K) (hs : SqrtSpec sqrt) (hc : CosSpec c)
+theorem model_rows_independent_of_solver_value (sqrt : K → K) (hs : SqrtSpec sqrt)
     (l₁ l₂ : Mat K → List (Nat × Nat)) (hl₁ : LsaContract l₁) (hl₂ : LsaContract l₂) (d1 d2 : Dgm K) :
     ∃ (w : K) (rows₁ rows₂ : List (Row K)),
-      wasserstein sqrt c c l₁ d1 d2 = .ok ⟨some w, warned d1, warned d2, rows₁.map rowOpt⟩
-      ∧ wasserstein sqrt c c l₂ d1 d2 = .ok ⟨some w, warned d1, warned d2, rows₂.map rowOpt⟩
+      wasserstein sqrt l₁ d1 d2 = .ok ⟨some w, warned d1, warned d2, rows₁.map rowOpt⟩
+      ∧ wasserstein sqrt l₂ d1 d2 = .ok ⟨some w, warned d1, warned d2, rows₂.map rowOpt⟩
       ∧ checkRowsWs (euclidM sqrt) (diagL2M sqrt) (finitePart d1) (finitePart d2) rows₁ w = true
       ∧ checkRowsWs (euclidM sqrt) (diagL2M sqrt) (finitePart d1) (finitePart d2) rows₂ w = true := by
-  obtain ⟨w₁, rows₁, hrun₁, -, -, -, c₁⟩ := model_ws_rows_certify sqrt c hs hc l₁ hl₁ d1 d2
-  obtain ⟨w₂, rows₂, hrun₂, -, -, -, c₂⟩ := model_ws_rows_certify sqrt c hs hc l₂ hl₂ d1 d2
+  obtain ⟨w₁, rows₁, hrun₁, -, -, -, c₁⟩ := model_ws_rows_certify sqrt hs l₁ hl₁ d1 d2
+  obtain ⟨w₂, rows₂, hrun₂, -, -, -, c₂⟩ := model_ws_rows_certify sqrt hs l₂ hl₂ d1 d2
   have hw : w₁ = w₂ := C02.minsum_unique _ _ _ w₁ w₂ c₁.value_is_spec c₂.value_is_spec
   subst hw
   exact ⟨w₁, rows₁, rows₂, hrun₁, hrun₂, c₁.accepted, c₂.accepted⟩
@@ -409,18 +409,18 @@ theorem modelBnRowsCertify {K : Type} [Field K] [LinearOrder K] [IsStrictOrdered
 
 /-- **C06 for the model of `persim.wasserstein`**, as a single statement -/
 def ModelWsRowsCertify (K : Type) [Field K] [LinearOrder K] [IsStrictOrderedRing K] : Prop :=
-  ∀ (sqrt : K → K) (c : K), SqrtSpec sqrt → CosSpec c →
+  ∀ (sqrt : K → K), SqrtSpec sqrt →
   ∀ (lsa : Wasserstein.Mat K → List (Nat × Nat)), WsLemmas.LsaContract lsa →
   ∀ (d1 d2 : Wasserstein.Dgm K),
     ∃ (w : K) (rows : List (Row K)),
-      Wasserstein.wasserstein sqrt c c lsa d1 d2
+      Wasserstein.wasserstein sqrt lsa d1 d2
         = .ok ⟨some w, Wasserstein.warned d1, Wasserstein.warned d2, rows.map rowOpt⟩
       ∧ WsCertified sqrt (Wasserstein.finitePart d1) (Wasserstein.finitePart d2) w rows
 
 theorem modelWsRowsCertify {K : Type} [Field K] [LinearOrder K] [IsStrictOrderedRing K] :
     ModelWsRowsCertify K := by
-  intro sqrt c hs hc lsa hl d1 d2
-  obtain ⟨w, rows, a, -, -, -, b⟩ := model_ws_rows_certify sqrt c hs hc lsa hl d1 d2
+  intro sqrt hs lsa hl d1 d2
+  obtain ⟨w, rows, a, -, -, -, b⟩ := model_ws_rows_certify sqrt hs lsa hl d1 d2
   exact ⟨w, rows, a, b⟩
 
 /-! ## 4. at the reals, in the vocabulary of C07 / C07Model -/
@@ -450,14 +450,14 @@ theorem model_bn_rows_certify_real {oracle : Bottleneck.Graph → Bottleneck.Mat
   obtain ⟨hbn, v, rows, hv, hrows, -, -, hcert⟩ := model_bn_rows_certify ho d1 d2 h1 h2 r rowsE h
   exact ⟨v, rows, ⟨r, hbn, hv⟩, hv, hrows, hcert.accepted, isBn_of_cst hcert.value_is_spec, hcert.optimal⟩
 
-/-- **the Wasserstein model over `ℝ`** with the code's constants `Real.sqrt`, `cos(π/4)`, `sin(π/4)`:
+/-- **the Wasserstein model over `ℝ`** with `Real.sqrt`:
     for every solver honouring `LsaContract` the model returns `w` (`WsReturns`), `w` is the
     Wasserstein distance `IsWs` of the finite parts, the rows are accepted by the checker with sum `w`
     and are an optimal matching for C07's cost system `(cW, uW)`. -/
 theorem model_ws_rows_certify_real (lsa : Wasserstein.Mat ℝ → List (Nat × Nat)) (hl : WsLemmas.LsaContract lsa)
     (d1 d2 : Wasserstein.Dgm ℝ) :
     ∃ (w : ℝ) (rows : List (Row ℝ)),
-      Wasserstein.wasserstein Real.sqrt (Real.cos (Real.pi / 4)) (Real.sin (Real.pi / 4)) lsa d1 d2
+      Wasserstein.wasserstein Real.sqrt lsa d1 d2
         = .ok ⟨some w, Wasserstein.warned d1, Wasserstein.warned d2, rows.map rowOpt⟩
       ∧ WsReturns lsa d1 d2 w
       ∧ checkRowsWs (euclidM Real.sqrt) (diagL2M Real.sqrt) (Wasserstein.finitePart d1)
@@ -471,14 +471,10 @@ theorem model_ws_rows_certify_real (lsa : Wasserstein.Mat ℝ → List (Nat × N
                 (uW (pts (Wasserstein.finitePart d1))) (uW (pts (Wasserstein.finitePart d2)))
               ≤ q.sumCost (cW (pts (Wasserstein.finitePart d1)) (pts (Wasserstein.finitePart d2)))
                 (uW (pts (Wasserstein.finitePart d1))) (uW (pts (Wasserstein.finitePart d2))) := by
-  have hsc : Real.sin (Real.pi / 4) = Real.cos (Real.pi / 4) := by
-    rw [Real.sin_pi_div_four, Real.cos_pi_div_four]
-  rw [hsc]
-  obtain ⟨w, rows, hrun, -, -, -, hcert⟩ := model_ws_rows_certify Real.sqrt _ C02.sqrtSpec_real
-    C02.cosSpec_real lsa hl d1 d2
+  obtain ⟨w, rows, hrun, -, -, -, hcert⟩ := model_ws_rows_certify Real.sqrt C02.sqrtSpec_real lsa hl d1 d2
   have hW : IsWs (Wasserstein.finitePart d1).get (Wasserstein.finitePart d2).get w := hcert.value_is_spec
   have hacc := hcert.accepted
-  refine ⟨w, rows, hrun, ⟨_, by rw [hsc]; exact hrun⟩, hacc, hW, ?_⟩
+  refine ⟨w, rows, hrun, ⟨_, hrun⟩, hacc, hW, ?_⟩
   have hWp : IsWs (pts (Wasserstein.finitePart d1)) (pts (Wasserstein.finitePart d2)) w := by
     obtain ⟨p, hp, hmin⟩ := hcert.optimal
     rw [euclidM_eq, diagL2M_eq] at hp hmin
@@ -545,11 +541,11 @@ example : (List.range 3).all (fun i => (List.range 3).all fun j =>
 example : Wasserstein.rowsOf 2 1 [(0, 0), (1, 2), (2, 1)] [some (1 : Rat), some (3/2), some 0]
     = List.map rowOpt [⟨0, 0, 1⟩, ⟨1, -1, 3/2⟩] := by decide +kernel
 
--- the Wasserstein theorem applies to ℝ, `Real.sqrt`, `cos(π/4)`, the verified exhaustive solver and
+-- the Wasserstein theorem applies to ℝ, `Real.sqrt`, the verified exhaustive solver and
 -- diagrams with a repeated point, a diagonal point, a point of infinite death (warning flag set):
 -- the model returns, and the checker accepts its rows with sum = the returned value
 example : ∃ (w : ℝ) (rows : List (Row ℝ)),
-    Wasserstein.wasserstein Real.sqrt (Real.cos (Real.pi / 4)) (Real.sin (Real.pi / 4)) Wasserstein.exhLsa
+    Wasserstein.wasserstein Real.sqrt Wasserstein.exhLsa
       [(0, some 1), (0, some 1), (2, some 2), (3, none)] [(0, some 2)]
       = .ok ⟨some w, true, false, rows.map rowOpt⟩
     ∧ checkRowsWs (euclidM Real.sqrt) (diagL2M Real.sqrt) [(0, 1), (0, 1), (2, 2)] [(0, 2)] rows w = true := by
